@@ -169,3 +169,48 @@ func H_C15_model_table_markdown() {
 	}
 	vReach("end")
 }
+
+func vCountSub(s, sub string) int {
+	n := 0
+	for i := 0; i+len(sub) <= len(s); i++ {
+		if s[i:i+len(sub)] == sub {
+			n++
+		}
+	}
+	return n
+}
+
+// H_C12_table_text_has_every_cell: the Markdown text a table chunk is made of contains the text of every cell of the
+// table exactly once, also when rows differ in length (ragged tables come out of PDF table detection and HTML).
+//
+//symgo:harness prop=C12 kernel=K4-table-chunk-text noreplay=1
+//symgo:desc table of 1..3 rows whose rows have 1..3 cells each, independently (enumerated: ragged in both directions); cell texts are distinct markers: every marker occurs exactly once in Table.ToMarkdown(), in row-major order. (Enumerated structure)
+func H_C12_table_text_has_every_cell() {
+	rows := vAnyIntIn(1, 3)
+	t := &Table{}
+	var markers []string
+	for i := 0; i < rows; i++ {
+		var row []Cell
+		for j, n := 0, vAnyIntIn(1, 3); j < n; j++ {
+			m := "c" + string(rune('A'+i)) + string(rune('0'+j)) + "x"
+			markers = append(markers, m)
+			row = append(row, Cell{Text: m, RowSpan: 1, ColSpan: 1})
+		}
+		t.Rows = append(t.Rows, row)
+	}
+	md := t.ToMarkdown()
+	pos := 0
+	for _, m := range markers {
+		vAssert("every-cell-text-exactly-once", vCountSub(md, m) == 1)
+		k := -1
+		for i := pos; i+len(m) <= len(md); i++ {
+			if md[i:i+len(m)] == m {
+				k = i
+				break
+			}
+		}
+		vAssert("cells-in-row-major-order", k >= 0)
+		pos = k + len(m)
+	}
+	vReach("end")
+}
